@@ -245,7 +245,7 @@ pub fn run(ctx: &mut Ctx) {
     for (n, ok) in r9::selftest(false) {
         ctx.selftest(&n, ok);
     }
-    ctx.require(&["annex_kat", "fixed_r_exact", "free_r", "ref_made_accepted", "bitflip_h", "bitflip_h_ge_N", "bitflip_S", "h=0", "h=N-1", "h=N", "h=2^256-1", "h+N_alias", "S=-S", "S=offcurve_y_plus_1", "S=(0,0)", "S=infinity", "S_rerandomised_Z", "msg_changed", "id_changed", "master_key_changed", "msg_empty", "id_empty", "ks=H1(id)_doubling_in_verify"]);
+    ctx.require(&["annex_kat", "fixed_r_exact", "free_r", "ref_made_accepted", "bitflip_h", "bitflip_h_ge_N", "bitflip_S", "h=0", "h=N-1", "h=N", "h=2^256-1", "h+N_alias", "S=-S", "S=offcurve_y_plus_1", "S=(0,0)", "S=infinity", "S_rerandomised_Z", "msg_changed", "id_changed", "master_key_changed", "msg_empty", "id_empty", "ks=H1(id)_doubling_in_verify", "verifier_has_public_key_only", "interleaved_master_keys_same_id"]);
     let pr = r9::params();
     // --- Annex example
     if ctx.shard == 0 {
@@ -274,7 +274,7 @@ pub fn run(ctx: &mut Ctx) {
         if mlen == 0 {
             ctx.class("msg_empty");
         }
-        let r = if i % 6 == 0 { &pr.n - 2u32 - BigUint::from(i % 4) } else { rand_scalar(&mut p, &(&pr.n - 1u32)) };
+        let r = if i % 6 == 0 { &pr.n - 2u32 - BigUint::from(i % 4) } else if i % 10 == 4 { BigUint::from(1 + i % 3) } else { rand_scalar(&mut p, &(&pr.n - 1u32)) };
         // crafted master key ks = H1(ID||01): the verifier's [h1]P2 + Ppub-s is then a doubling
         let ks = if i % 8 == 3 {
             ctx.class("ks=H1(id)_doubling_in_verify");
@@ -289,6 +289,57 @@ pub fn run(ctx: &mut Ctx) {
         }
         if i % 16 == 0 {
             ctx.sample(json!({"sign_case": wit(&ks, &id, &msg, Some(&r))}));
+        }
+    }
+    // --- verifier-only key objects and interleaved master keys
+    // (a) a relying party has Ppub-s but not ks: verification must depend on the public part only
+    // (b) the same identity under two master keys, verified alternately on one thread: results must not
+    //     depend on what was verified before
+    let nh = ctx.n(6, 200);
+    let mut prng = ctx.prng("verifier-only");
+    for i in 0..nh {
+        let sub = prng.next();
+        if !ctx.mine(i) {
+            continue;
+        }
+        let mut p = Prng::new(sub, "v");
+        let (ksa, ksb) = (rand_scalar(&mut p, &(&pr.n - 1u32)), rand_scalar(&mut p, &(&pr.n - 1u32)));
+        let idl = p.range(1, 12);
+        let id = p.bytes(idl);
+        let msg = p.bytes(20);
+        let (ra, rb) = (rand_scalar(&mut p, &(&pr.n - 1u32)), rand_scalar(&mut p, &(&pr.n - 1u32)));
+        let (Some((ha, sa)), Some((hb, sb))) = (r9::sign(&ksa, &id, &msg, &ra), r9::sign(&ksb, &id, &msg, &rb)) else { continue };
+        let mka = sign_master(&ksa);
+        let mkb = sign_master(&ksb);
+        // public-only objects: ks replaced by placeholders
+        let placeholders: [[u64; 4]; 3] = [[0; 4], [1, 0, 0, 0], limbs(&ksb)];
+        let (sla, slb) = (lib_g1_affine(&sa), lib_g1_affine(&sb));
+        for ph in placeholders {
+            let pub_only = gm_sm9::key::Sm9SignMasterKey { ks: ph, ppubs: mka.ppubs };
+            ctx.eval();
+            ctx.class("verifier_has_public_key_only");
+            let hl = limbs(&ha);
+            match guard(|| pub_only.verify_sign(&id, &msg, &hl, &sla)) {
+                Outcome::Ret(Ok(())) => {}
+                o => ctx.violation(&format!("verify_sign:verifier-without-ks:valid-signature-rejected:{}", oc(&o)), json!({"case": wit(&ksa, &id, &msg, Some(&ra)), "ks_field": hex::encode(crate::mon::limbs_to_be(&ph))})),
+            }
+        }
+        // interleaving A / B on the same identity
+        let script: [(bool, bool); 7] = [(true, true), (false, false), (true, true), (false, true), (false, false), (true, false), (true, true)];
+        for (step, (use_a_key, use_a_sig)) in script.iter().enumerate() {
+            ctx.eval();
+            ctx.class("interleaved_master_keys_same_id");
+            let mk = if *use_a_key { &mka } else { &mkb };
+            let (h, sl) = if *use_a_sig { (&ha, &sla) } else { (&hb, &slb) };
+            let hl = limbs(h);
+            let o = guard(|| mk.verify_sign(&id, &msg, &hl, sl));
+            let want_ok = use_a_key == use_a_sig;
+            let got_ok = matches!(o, Outcome::Ret(Ok(())));
+            let is_err = matches!(o, Outcome::Ret(Err(_)));
+            if want_ok != got_ok || (!want_ok && !is_err) {
+                ctx.violation(&format!("verify_sign:interleaved-master-keys:step-{}:{}", if want_ok { "valid-rejected" } else { "invalid-not-rejected" }, oc(&o)), json!({"ksA": hex::encode(r9::b32(&ksa)), "ksB": hex::encode(r9::b32(&ksb)), "id": hx(&id), "step": step, "script(key A?, signature of A?)": format!("{:?}", script)}));
+                break;
+            }
         }
     }
     // --- forged samples (the same samples on every shard; the fault space is partitioned)
